@@ -237,6 +237,118 @@ theorem keysCmp_laws (tys : List (KTy × Dir)) : CmpLaws (fun k => wellTyped tys
                   | exact ih.eq_lt wx wy wz
                   | exact ih.eq_eq wx wy wz)
 
+
+/-! ### generic versions: NULL-last wrapper and lexicographic key lists over any value type -/
+
+/-- NULL-last wrapper around a comparison of the non-NULL values, for any value type -/
+def nullLastG {α : Type} (isNull : α → Bool) (cmp : α → α → Ordering) (a b : α) : Ordering :=
+  match isNull a, isNull b with
+  | true, true => .eq
+  | true, false => .gt
+  | false, true => .lt
+  | false, false => cmp a b
+
+theorem nullLastG_laws {α : Type} {isNull : α → Bool} {cmp : α → α → Ordering}
+    (h : CmpLaws (fun _ : α => True) cmp) : CmpLaws (fun _ : α => True) (nullLastG isNull cmp) where
+  swap := by
+    intro a b _ _
+    cases ha : isNull a <;> cases hb : isNull b <;> simp [nullLastG, ha, hb, Ordering.swap]
+    exact h.swap trivial trivial
+  lt_lt := by
+    intro a b c _ _ _
+    cases ha : isNull a <;> cases hb : isNull b <;> cases hc : isNull c <;> simp [nullLastG, ha, hb, hc]
+    exact h.lt_lt trivial trivial trivial
+  lt_eq := by
+    intro a b c _ _ _
+    cases ha : isNull a <;> cases hb : isNull b <;> cases hc : isNull c <;> simp [nullLastG, ha, hb, hc]
+    exact h.lt_eq trivial trivial trivial
+  eq_lt := by
+    intro a b c _ _ _
+    cases ha : isNull a <;> cases hb : isNull b <;> cases hc : isNull c <;> simp [nullLastG, ha, hb, hc]
+    exact h.eq_lt trivial trivial trivial
+  eq_eq := by
+    intro a b c _ _ _
+    cases ha : isNull a <;> cases hb : isNull b <;> cases hc : isNull c <;> simp [nullLastG, ha, hb, hc]
+    exact h.eq_eq trivial trivial trivial
+
+/-- the comparison closure of `apply_order_by` over key lists of any value type -/
+def lexCmp {α : Type} (cmp : Dir → α → α → Ordering) : List (α × Dir) → List (α × Dir) → Ordering
+  | (a, d) :: as, (b, _) :: bs =>
+    match cmp d a b with
+    | .eq => lexCmp cmp as bs
+    | o => o
+  | _, _ => .eq
+
+/-- a key list has exactly the directions of the ORDER BY items -/
+def shaped {α : Type} : List Dir → List (α × Dir) → Bool
+  | [], [] => true
+  | d :: ds, (_, d') :: ks => d == d' && shaped ds ks
+  | _, _ => false
+
+theorem lexCmp_laws {α : Type} (cmp : Dir → α → α → Ordering)
+    (h : ∀ d, CmpLaws (fun _ : α => True) (cmp d)) (dirs : List Dir) :
+    CmpLaws (fun k : List (α × Dir) => shaped dirs k = true) (lexCmp cmp) := by
+  induction dirs with
+  | nil =>
+    have hnil : ∀ k : List (α × Dir), shaped [] k = true → k = [] := by
+      intro k hk; cases k <;> simp_all [shaped]
+    constructor
+    · intro a b pa pb; rw [hnil a pa, hnil b pb]; simp [lexCmp, Ordering.swap]
+    all_goals
+      intro a b c pa pb pc
+      rw [hnil a pa, hnil b pb, hnil c pc]; simp [lexCmp]
+  | cons d dirs ih =>
+    have hk := h d
+    constructor
+    · intro a b pa pb
+      cases a with
+      | nil => simp [shaped] at pa
+      | cons x xs =>
+        cases b with
+        | nil => simp [shaped] at pb
+        | cons y ys =>
+          obtain ⟨xv, xd⟩ := x
+          obtain ⟨yv, yd⟩ := y
+          simp only [shaped, Bool.and_eq_true, beq_iff_eq] at pa pb
+          obtain ⟨dx, wx⟩ := pa
+          obtain ⟨dy, wy⟩ := pb
+          subst dx; subst dy
+          simp only [lexCmp]
+          rw [hk.swap (a := xv) (b := yv) trivial trivial]
+          cases hxy : cmp d xv yv <;> simp [Ordering.swap]
+          exact ih.swap wx wy
+    all_goals
+      intro a b c pa pb pc
+      cases a with
+      | nil => simp [shaped] at pa
+      | cons x xs =>
+        cases b with
+        | nil => simp [shaped] at pb
+        | cons y ys =>
+          cases c with
+          | nil => simp [shaped] at pc
+          | cons z zs =>
+            obtain ⟨xv, xd⟩ := x
+            obtain ⟨yv, yd⟩ := y
+            obtain ⟨zv, zd⟩ := z
+            simp only [shaped, Bool.and_eq_true, beq_iff_eq] at pa pb pc
+            obtain ⟨dx, wx⟩ := pa
+            obtain ⟨dy, wy⟩ := pb
+            obtain ⟨dz, wz⟩ := pc
+            subst dx; subst dy; subst dz
+            simp only [lexCmp]
+            cases hxy : cmp d xv yv <;> cases hyz : cmp d yv zv <;> simp
+            all_goals first
+              | done
+              | (have e := hk.lt_lt (a := xv) (b := yv) (c := zv) trivial trivial trivial hxy hyz; simp [e]; done)
+              | (have e := hk.lt_eq (a := xv) (b := yv) (c := zv) trivial trivial trivial hxy hyz; simp [e]; done)
+              | (have e := hk.eq_lt (a := xv) (b := yv) (c := zv) trivial trivial trivial hxy hyz; simp [e]; done)
+              | (have e := hk.eq_eq (a := xv) (b := yv) (c := zv) trivial trivial trivial hxy hyz; simp only [e]; first
+                  | exact ih.lt_lt wx wy wz
+                  | exact ih.lt_eq wx wy wz
+                  | exact ih.eq_lt wx wy wz
+                  | exact ih.eq_eq wx wy wz)
+
 /-- `≤`-transitivity and totality of the Boolean order derived from a lawful comparison -/
 theorem CmpLaws.le_trans {α : Type} {P : α → Prop} {cmp : α → α → Ordering} (h : CmpLaws P cmp)
     {a b c : α} (pa : P a) (pb : P b) (pc : P c)
